@@ -442,3 +442,65 @@ def ends_at_origin(g):
                 res[f] = ok
                 changed = True
     return res, why
+
+
+# ---------------------------------------------------------------------------
+# positions of operations inside the built sequences
+
+INF = float("inf")
+
+
+def min_first_index(g, types):
+    """builder -> (lower bound of the index, inside the sequence the builder returns, of the first operation
+    whose type is in `types`; witness) for every live builder.  The bound is the least fixpoint of
+    `min over production paths`; a loop may run zero times and a called builder may contain no such
+    operation, so both only lower the bound.  witness = (conds, items, exact): the production attaining the
+    bound; exact is True when no loop and no call precedes the operation on it (its index is then the bound
+    itself, not merely bounded by it)."""
+    live = [f for f in g.builders if g.builders[f].live]
+    paths = {f: production_paths(g, f) for f in live}
+    minlen = {f: INF for f in live}
+    changed = True
+    while changed:
+        changed = False
+        for f in live:
+            best = INF
+            for _, items in paths[f]:
+                n = 0
+                for x in items:
+                    if isinstance(x, tuple):
+                        continue
+                    n += 1 if x.kind == "op" else minlen.get(x.callee, 0)
+                best = min(best, n)
+            if best < minlen[f]:
+                minlen[f], changed = best, True
+    first = {f: (INF, None) for f in live}
+    changed = True
+    while changed:
+        changed = False
+        for f in live:
+            best = first[f]
+            for conds, items in paths[f]:
+                pos, exact = 0, True
+                for x in items:
+                    if isinstance(x, tuple):
+                        for o, y in enumerate(x[2]):
+                            if y.kind == "op" and y.type in types and pos + o < best[0]:
+                                best = (pos + o, (conds, items, False))
+                        exact = False
+                        continue
+                    if x.kind == "op":
+                        if x.type in types:
+                            if pos < best[0]:
+                                best = (pos, (conds, items, exact))
+                            break
+                        pos += 1
+                        continue
+                    sub = first.get(x.callee, (0, None))[0]
+                    if pos + sub < best[0]:
+                        best = (pos + sub, (conds, items, False))
+                    pos += minlen.get(x.callee, 0)
+                    exact = False
+            if best[0] < first[f][0]:
+                first[f], changed = best, True
+    return first
